@@ -39,6 +39,33 @@
 #define MIN(a, b) ((a) > (b) ? (b) : (a))    ///< Returns the minimum of a and b
 #define MAX(a, b) ((a) > (b) ? (a) : (b))    ///< Returns the maximum of a and b
 
+// Verification hooks (only active with REBOUND_VERIF=1): encounter state as bit masks, checksum of the step's working state
+static void reb_verif_trace_state(struct reb_simulation* const r, const char* ev, double extra){
+    if (reb_verif_state==0) return;
+    const struct reb_integrator_trace* const ri_trace = &(r->ri_trace);
+    const int N = r->N;
+    double km = 0., em = 0.;
+    if (N<=7){
+        for (int i=0;i<N;i++){
+            for (int j=i+1;j<N;j++){
+                if (ri_trace->current_Ks[i*N+j]) km += ldexp(1.,i*N+j);
+            }
+            if (ri_trace->encounter_map[i]) em += ldexp(1.,i);
+        }
+    }
+    REB_VERIF(r, ev, 6, (double)ri_trace->current_C, (double)ri_trace->encounter_N, (double)ri_trace->tponly_encounter, km, em, extra);
+}
+static void reb_verif_trace_sum(struct reb_simulation* const r, const char* ev){
+    if (reb_verif_state==0) return;
+    double s = 0.;
+    for (unsigned int i=0;i<r->N;i++){
+        const struct reb_particle p = r->particles[i];
+        s += (i+1.)*(p.x + 2.*p.y + 3.*p.z + 5.*p.vx + 7.*p.vy + 11.*p.vz + 13.*p.m);
+    }
+    const struct reb_vec3d c = r->ri_trace.com_pos;
+    REB_VERIF(r, ev, 3, s, c.x + 2.*c.y + 3.*c.z, (double)r->N);
+}
+
 int reb_integrator_trace_switch_default(struct reb_simulation* const r, const unsigned int i, const unsigned int j){
     // Returns 1 for close encounter between i and j, 0 otherwise
     struct reb_integrator_trace* const ri_trace = &(r->ri_trace);
@@ -246,6 +273,7 @@ void reb_integrator_trace_dh_to_inertial(struct reb_simulation* r){
 }
 
 void reb_integrator_trace_interaction_step(struct reb_simulation* const r, double dt){
+    REB_VERIF(r, "tr_int", 2, dt, r->dt);
     struct reb_particle* restrict const particles = r->particles;
     const int N = r->N;
     r->ri_trace.mode = REB_TRACE_MODE_INTERACTION;
@@ -262,6 +290,7 @@ void reb_integrator_trace_jump_step(struct reb_simulation* const r, double dt){
 
     struct reb_integrator_trace* ri_trace = &(r->ri_trace);
     const int current_C = ri_trace->current_C;
+    REB_VERIF(r, "tr_jump", 3, dt, r->dt, (double)current_C);
     if (current_C) return; // No jump step for pericenter approaches
 
     const int N_active = r->N_active==-1?r->N:r->N_active;
@@ -288,12 +317,14 @@ void reb_integrator_trace_jump_step(struct reb_simulation* const r, double dt){
 }
 
 void reb_integrator_trace_com_step(struct reb_simulation* const r, double dt){
+    REB_VERIF(r, "tr_com", 2, dt, r->dt);
     r->ri_trace.com_pos.x += dt*r->ri_trace.com_vel.x;
     r->ri_trace.com_pos.y += dt*r->ri_trace.com_vel.y;
     r->ri_trace.com_pos.z += dt*r->ri_trace.com_vel.z;
 }
 
 void reb_integrator_trace_whfast_step(struct reb_simulation* const r, double dt){
+    REB_VERIF(r, "tr_wh", 2, dt, r->dt);
     //struct reb_particle* restrict const particles = r->particles;
     const int N = r->N;
     for (int i=1;i<N;i++){
@@ -392,6 +423,11 @@ void reb_integrator_trace_bs_step(struct reb_simulation* const r, double dt){
     }
 
     ri_trace->mode = REB_TRACE_MODE_KEPLER;
+    if (reb_verif_state!=0){
+        double lm = 0.;
+        for (unsigned int i=0;i<ri_trace->encounter_N;i++) lm += ldexp(1.,ri_trace->encounter_map[i]);
+        REB_VERIF(r, "tr_bs", 5, dt, r->dt, (double)ri_trace->encounter_N, lm, (double)ri_trace->encounter_N_active);
+    }
     
     // Only Partial BS uses this step 
     if (ri_trace->peri_mode == REB_TRACE_PERI_PARTIAL_BS || !ri_trace->current_C){
@@ -647,6 +683,7 @@ double reb_integrator_trace_post_ts_check(struct reb_simulation* const r){
                 new_close_encounter = 1;
                 if (ri_trace->peri_mode == REB_TRACE_PERI_FULL_BS || ri_trace->peri_mode == REB_TRACE_PERI_FULL_IAS15){
                     // Everything will be integrated with BS/IAS15. No need to check any further.
+                    reb_verif_trace_state(r, "tr_post", (double)new_close_encounter);
                     return new_close_encounter;
                 }
 
@@ -691,6 +728,7 @@ double reb_integrator_trace_post_ts_check(struct reb_simulation* const r){
         }
     }
     
+    reb_verif_trace_state(r, "tr_post", (double)new_close_encounter);
     return new_close_encounter;
 }
 
@@ -725,6 +763,7 @@ static void reb_integrator_trace_step(struct reb_simulation* const r){
         const double old_dt = r->dt;
         const double old_t = r->t;
         const double dtsign = old_dt>=0.?1.:-1.; // Allows for backwards integrations
+        REB_VERIF(r, "tr_full", 2, (double)r->ri_trace.peri_mode, r->dt);
         r->gravity = REB_GRAVITY_BASIC;
         r->ri_trace.mode = REB_TRACE_MODE_FULL; // for collision search
 	reb_integrator_trace_dh_to_inertial(r);
@@ -816,8 +855,10 @@ void reb_integrator_trace_part2(struct reb_simulation* const r){
     // This will be set to 1 if a collision occured.
     ri_trace->force_accept = 0;
 
+    reb_verif_trace_sum(r, "tr_begin");
     // Check if there are any close encounters
     reb_integrator_trace_pre_ts_check(r);
+    reb_verif_trace_state(r, "tr_pre", 0.);
     
     // Attempt one step. 
     reb_integrator_trace_step(r);
@@ -830,11 +871,13 @@ void reb_integrator_trace_part2(struct reb_simulation* const r){
             // Revert particles to the beginning of the step.
             memcpy(r->particles, ri_trace->particles_backup, N*sizeof(struct reb_particle));
             ri_trace->com_pos = com_pos_backup;
+            reb_verif_trace_sum(r, "tr_reject");
 
             // Do step again
             reb_integrator_trace_step(r);
         }
     }
+    REB_VERIF(r, "tr_end", 2, (double)ri_trace->force_accept, r->dt);
     reb_integrator_trace_dh_to_inertial(r);
     
     r->t+=r->dt;
